@@ -10,6 +10,7 @@ mod hist;
 mod c01;
 mod c02;
 mod c03;
+mod c04;
 mod c13;
 
 use util::*;
@@ -67,6 +68,7 @@ fn main() {
         "C01" => c01::run(&p, &mut rep),
         "C02" => c02::run(&p, &mut rep),
         "C03" => c03::run(&p, &mut rep),
+        "C04" => c04::run(&p, &mut rep),
         "C13" => c13::run(&p, &mut rep),
         other => {
             eprintln!("no monitor for {}", other);
